@@ -25,7 +25,7 @@ def _run(ctx):
         if ri.status != "ok":
             ctx.infra("TLC did not verify the design-intent configuration: %s %s" % (ri.status, ri.violated))
     for cfg in (cfgs if binary else []):
-        mc = lq.model_check(ctx, cfg, ["Submit:ok", "Submit:refused", "Submit:ignored", "Restart"], files=files)
+        mc = lq.model_check(ctx, cfg, ["Submit:ok", "Submit:refused", "Submit:ignored", "Restart", "SyncHeader"], files=files)
         if not mc:
             continue
         nsteps, names, classes, allpaths = one_cfg(ctx, binary, mc, cfg, nsteps, names, classes, allpaths)
